@@ -195,6 +195,25 @@ theorem prog_bound (p p' : PSt) (l : List Ev) (h : runLog pstep p l = some p') :
         simp [hst]; omega
       · split <;> omega
 
+/-- pika's own events do not touch the program -/
+theorem pstep_own (p : PSt) (e : Ev) (s' : St) (he : envEv e = false) (h : step p.s e = some s') :
+    pstep p e = some ⟨s', p.ops, p.m⟩ := by
+  cases e <;> simp_all [pstep, lift, envEv]
+
+theorem lift_run (l : List Ev) : ∀ (p : PSt) (s' : St), (∀ e ∈ l, envEv e = false) →
+    runLog step p.s l = some s' → runLog pstep p l = some ⟨s', p.ops, p.m⟩ := by
+  induction l with
+  | nil => intro p s' _ h; simp at h; subst h; rfl
+  | cons e es ih =>
+    intro p s' hall h
+    simp only [runLog] at h ⊢
+    cases hs : step p.s e with
+    | none => simp [hs] at h
+    | some s1 =>
+      simp only [hs] at h
+      rw [pstep_own p e s1 (hall e List.mem_cons_self) hs]
+      exact ih ⟨s1, p.ops, p.m⟩ s' (fun x hx => hall x (List.mem_cons_of_mem _ hx)) h
+
 def pinit (n K : Nat) (ident : Nat → Nat) (fixCas fixCtor : Bool) (srcs : Nat) (ops : Nat → List Op) (m : Nat) : PSt :=
   ⟨init n K ident fixCas fixCtor srcs, ops, m⟩
 
